@@ -263,6 +263,82 @@
     #[kani::stub(crate::error_eof, crate::vk::err_eof)]
     fn c12_xz_next_stream_p0_t1() { xz_next_stream(0, 1); }
 
+    /// C12.xz.pad (cheap variants for the quick tier): the tail is a *valid* stream header for an arbitrary supported
+    /// check type (only the check id is symbolic): Ok(true) iff p % 4 == 0, and the new stream's check type replaces
+    /// the previous one (here: Sha256) and the block counter restarts.
+    fn xz_next_stream_valid(p: usize) {
+        let c: u8 = vk::any();
+        vk::assume(c == 0 || c == 1 || c == 4 || c == 10);
+        let crc = CRC32.checksum(&[0, c]).to_le_bytes();
+        let tail = [0xFD, b'7', b'z', b'X', b'Z', 0, 0, c, crc[0], crc[1], crc[2], crc[3]];
+        let mut buf = [0u8; 24];
+        let mut i = 0;
+        while i < 12 { buf[p + i] = tail[i]; i += 1; }
+        let mut r = XZReader::new(vk::Src::<24>::new(buf, p + 12), true);
+        r.stream_header = Some(StreamHeader { check_type: CheckType::Sha256 });
+        r.blocks_processed = 2;
+        let res = r.try_start_next_stream();
+        if p % 4 == 0 {
+            assert!(matches!(res, Ok(true)));
+            assert!(r.blocks_processed == 0);
+            assert!(r.stream_header.as_ref().unwrap().check_type as u8 == c);
+            assert!(r.compressed_bytes_read.get() == (p + 12) as u64);
+        } else {
+            assert!(matches!(res, Err(ref e) if vk::kind_of(e) == vk::Kind::InvalidData));
+        }
+        core::mem::forget(r);
+    }
+    /// first byte after the padding is neither zero nor the first magic byte: always an error
+    fn xz_next_stream_garbage(p: usize) {
+        let g: u8 = vk::any();
+        vk::assume(g != 0);
+        let mut buf = [0u8; 24];
+        buf[p] = g;
+        let mut i = 1;
+        while i < 12 { buf[p + i] = XZ_MAGIC[i % 6]; i += 1; }
+        let mut r = XZReader::new(vk::Src::<24>::new(buf, p + 12), true);
+        r.stream_header = Some(StreamHeader { check_type: CheckType::Crc32 });
+        let res = r.try_start_next_stream();
+        assert!(res.is_err());
+        core::mem::forget(r);
+    }
+    #[kani::proof]
+    #[kani::unwind(14)]
+    //@ERR
+    fn c12_xz_next_valid_p0() { xz_next_stream_valid(0); }
+    #[kani::proof]
+    #[kani::unwind(14)]
+    //@ERR
+    fn c12_xz_next_valid_p4() { xz_next_stream_valid(4); }
+    #[kani::proof]
+    #[kani::unwind(14)]
+    //@ERR
+    fn c12_xz_next_valid_p8() { xz_next_stream_valid(8); }
+    #[kani::proof]
+    #[kani::unwind(14)]
+    //@ERR
+    fn c12_xz_next_valid_p1() { xz_next_stream_valid(1); }
+    #[kani::proof]
+    #[kani::unwind(14)]
+    //@ERR
+    fn c12_xz_next_valid_p2() { xz_next_stream_valid(2); }
+    #[kani::proof]
+    #[kani::unwind(14)]
+    //@ERR
+    fn c12_xz_next_valid_p3() { xz_next_stream_valid(3); }
+    #[kani::proof]
+    #[kani::unwind(14)]
+    //@ERR
+    fn c12_xz_next_valid_p5() { xz_next_stream_valid(5); }
+    #[kani::proof]
+    #[kani::unwind(14)]
+    //@ERR
+    fn c12_xz_next_garbage_p0() { xz_next_stream_garbage(0); }
+    #[kani::proof]
+    #[kani::unwind(14)]
+    //@ERR
+    fn c12_xz_next_garbage_p4() { xz_next_stream_garbage(4); }
+
     /// C05.xz.pad / C04.xz.block: consume_padding with a source that delivers arbitrarily short reads and Interrupted:
     /// Ok ⇔ the (4 - pos%4)%4 bytes are all zero; exactly that many bytes are consumed; behaviour depends only on the bytes.
     fn xz_consume_padding(short: bool, interrupts: u8) {
